@@ -258,16 +258,16 @@ def build_random(path, rng, nops):
     for _ in range(nops):
         k = rng.random()
         try:
-            if k < 0.34:
+            if k < 0.32:
                 r.commit()
-            elif k < 0.44:
+            elif k < 0.42:
                 name = rng.choice(BRANCHES)
                 cid = rng.choice(r.commits)["id"] if rng.random() < 0.4 else None
                 if not r.branch(name, cid):
                     continue
                 if rng.random() < 0.7:
                     r.checkout(name)
-            elif k < 0.54:
+            elif k < 0.50:
                 if r.head[0] == "detached" and rng.random() < 0.8:
                     r.checkout(rng.choice(sorted(r.branches)))
                 else:
